@@ -58,6 +58,8 @@ def run_c07(sc):
     mode = sc.get("c07_mode", "contain")
     if mode == "abort":
         return run_c07_abort(sc)
+    sc = copy.deepcopy(sc)
+    sc["second_plugin"] = True
     base_sc = copy.deepcopy(sc)
     base_sc["keep_call_kinds"] = True
     base_sc["faults"] = []
@@ -86,6 +88,7 @@ def run_c07(sc):
     base_later = _later_observers(base)
     tested = {"action": 0, "fn": 0, "plugin": 0, "subscriber": 0, "listener": 0, "guard": 0}
     doubles = 0
+    noplug = 0
     for plan in plans:
         s2 = copy.deepcopy(sc)
         s2["faults"] = [{"at_call": i} for i in plan]
@@ -154,6 +157,35 @@ def run_c07(sc):
             vios.append(Violation("C07", "on-action-error-not-notified", dict(sig, builtin=kind == "fn"),
                                   f"fault at call {plan} ({fired[0][1:]}): on_action_error called {len(errs)} times for {len(fired)} faults"))
             break
+        # every registered plugin is told (the second, well-behaved one as often as the recording one)
+        if kind in ("action", "fn") and len(plan) == 1:
+            n2 = sum(1 for r in res.trace if r[K] == "acterr2" and r[4] == root)
+            if n2 != len(errs):
+                vios.append(Violation("C07", "on-action-error-not-notified", dict(sig, builtin=kind == "fn", plugin="second"),
+                                      f"fault at call {plan} ({fired[0][1:]}): the first plugin's on_action_error ran {len(errs)} times, "
+                                      f"the second plugin's {n2} times"))
+                break
+        # the same fault with NO plugin registered at all: observers must not be needed for containment to work
+        if len(plan) == 1 and kind in ("action", "fn") and noplug < 8:
+            noplug += 1
+            knd, nm = kinds[plan[0] - 1]
+            occ = sum(1 for x in kinds[:plan[0]] if x == (knd, nm))
+            s4 = copy.deepcopy(sc)
+            s4["no_plugin"] = True
+            s4["faults"] = [{"at_occurrence": [knd, nm, occ]}]
+            res4 = execute(s4)
+            results.append(res4)
+            if res4.meta.get("harness_error"):
+                return results, vios
+            if not res4.meta.get("abort") and res4.meta.get("faults_fired"):
+                tested["no_plugin"] = tested.get("no_plugin", 0) + 1
+                o3 = [x for x in _cfg_seq(res, root) if x[0] == "o"]
+                o4 = [x for x in _cfg_seq(res4, root) if x[0] == "o"]
+                if _acts(res4, root) != _acts(res, root) or o3 != o4:
+                    vios.append(Violation("C07", "behaviour-depends-on-plugins", dict(sig, plugins=0),
+                                          f"fault at call {plan} ({fired[0][1:]}): with no plugin registered the run differs from the run "
+                                          f"with plugins ({len(_acts(res4, root))} vs {len(_acts(res, root))} user actions executed)"))
+                    break
         # double fault: the same action / built-in callback fault while every on_action_error hook raises as well - an observer
         # fault "changes nothing at all", so the run must be the single-fault run
         if len(plan) == 1 and kind in ("action", "fn") and doubles < 10 and "on_action_error" in (sc.get("hostile_plugin") or []):
